@@ -230,7 +230,12 @@ def check_case(case):
         bad = g.compare_results(pb, R, P, nsteps, EEPS, SEPS, CBAND, errs, ".substepped" if sub else "")
         if bad is not None:
             shown = {kk: vv for kk, vv in o.items() if sub or kk not in ("faults", "maxdt_fraction", "itermax")}
-            return Result(False, "C49.differs.%s%s" % (bad[0], ".substepping" if sub else ""),
+            key = "C49.differs.%s%s" % (bad[0], ".substepping" if sub else "")
+            if sub and "maxdt_fraction" not in o and g.has_short_period(times):
+                # known class (findings/pending/C49.json, same defect as C48's): a rejected step inside a period
+                # that is short with respect to the absolute time may make GenericSolver::execute step beyond te
+                key = "C49.end_of_period_missed.short_period_substepped"
+            return Result(False, key,
                           "reference against option point %s: %s" % (shown, bad[1]),
                           sample={"mtest": text, "args": args, "env": env, "reference": jobs[0][1]})
     if nconv == 0:
